@@ -450,7 +450,15 @@ func (g *GenSchema) addBatch(r *vh.Rng, o *schemabuilder.Object, owner, name str
 				}
 				continue
 			}
-			m.SetMapIndex(k, g.nnValue(rr, ret, nonNullable))
+			v := g.nnValue(rr, ret, nonNullable)
+			if !g.OmitMarshalers && isTextMarshaler(ret) && ret.Kind() == reflect.Ptr && v.IsNil() {
+				// (a nil *TextMarshaler in a batch result reaches the unwrapper as "no value", like a missing entry)
+				v = reflect.New(ret.Elem())
+				if nonNullable {
+					atomic.StoreInt32(&g.NonNullNil, 0)
+				}
+			}
+			m.SetMapIndex(k, v)
 		}
 		res := []reflect.Value{m}
 		if len(bout) == 2 {
